@@ -6,6 +6,7 @@ from ..facts import AnchorMissing
 from ..guards import analysis, closure_info, truth_of
 from ..sym import Sym, atom_str
 from ..terms import strip, short, cname, unmut, walk, same
+from .common import check_row_decl
 from .tables import check_fn_tables, diff_tables
 
 LEVEL = "other"
@@ -321,6 +322,7 @@ def run(prog, tier, res):
             rows_ok = True
     if not rows_ok:
         res.violate(R5, MAIN, "row-missing", "cannot find the single `wtr.serialize(Row{..})`", b.where())
+    check_row_decl(prog, res, R5, "alpha_g_chronobox_timestamps::Row", spec["row_decl"], MAIN, b.where())
     # previous_marker := next_marker at the end of each piece
     prev = [l for l in range(len(b.locals)) if sy.short_ty(b.locals[l]["ty"]) == "Option<WrapAroundMarker>" and len(an.terms.defs.whole[l]) == 2]
     upd = False
